@@ -99,18 +99,135 @@ def update_agents_program(fn: ast.FunctionDef) -> List[Tuple[bool, str]]:
     return out
 
 
+_PIPE_WORDS = ("reward_function", "update_agents", "advance_timestep", "apply_agent_actions", "get_sim_state", "pre_timestep",
+               "store_action", "describe_state", "update_reward", "save_reward_to_history", "current_reward", "total_reward",
+               "self.simulation", ".step(")
+
+
+def step_pipeline(fn: ast.FunctionDef, game: str, returns_reward: bool) -> List[Tuple[bool, str]]:
+    """A `step` method as the sequence of reward-relevant calls it is (Model/Reward.lean `POp`), in source order; `game` is the
+    expression that denotes the PrimaiteGame (`self` / `self.game`). Strict: a statement that mentions the simulation or the rewards
+    and is not one of the recognised calls raises."""
+    out: List[Tuple[bool, str]] = []
+    reward_var = [None]
+
+    def q(x: str) -> str:
+        return '"' + x + '"'
+
+    def one(st: ast.stmt, guarded: bool):
+        src = ast.unparse(st)
+        if isinstance(st, ast.Expr) and isinstance(st.value, ast.Constant):
+            return
+        if isinstance(st, ast.Expr) and isinstance(st.value, ast.Call) and ast.unparse(st.value.func).startswith("_LOGGER."):
+            return
+        if src == "self.agent.store_action(action)" or (
+                isinstance(st, ast.For) and ast.unparse(st.iter) == "actions.items()" and len(st.body) == 1
+                and ast.unparse(st.body[0]) == f"self.agents[{ast.unparse(st.target.elts[0])}].store_action({ast.unparse(st.target.elts[1])})"):
+            out.append((guarded, ".storeAction"))
+        elif src == f"{game}.pre_timestep()":
+            out.append((guarded, ".preTimestep"))
+        elif src == f"{game}.apply_agent_actions()":
+            out.append((guarded, ".applyActions"))
+        elif src == f"{game}.advance_timestep()":
+            out.append((guarded, ".advance"))
+        elif isinstance(st, ast.Assign) and len(st.targets) == 1 and isinstance(st.targets[0], ast.Name) \
+                and ast.unparse(st.value) == f"{game}.get_sim_state()":
+            out.append((guarded, f"(.getState {q(st.targets[0].id)})"))
+        elif isinstance(st, ast.Expr) and isinstance(st.value, ast.Call) and ast.unparse(st.value.func) == f"{game}.update_agents" \
+                and len(st.value.args) + len(st.value.keywords) == 1 \
+                and isinstance((st.value.args + [k.value for k in st.value.keywords if k.arg == "state"])[0], ast.Name):
+            out.append((guarded, f"(.updateAgents {q((st.value.args + [k.value for k in st.value.keywords])[0].id)})"))
+        elif isinstance(st, ast.For) and ast.unparse(st.iter) == "self.agents.values()" and len(st.body) == 1 and not st.orelse \
+                and isinstance(st.body[0], ast.Expr) and isinstance(st.body[0].value, ast.Call) \
+                and ast.unparse(st.body[0].value.func) == f"{ast.unparse(st.target)}.update_observation" \
+                and len(st.body[0].value.keywords) == 1 and isinstance(st.body[0].value.keywords[0].value, ast.Name):
+            out.append((guarded, f"(.updateObservations {q(st.body[0].value.keywords[0].value.id)})"))
+        elif isinstance(st, ast.If) and not guarded and ast.unparse(st.test) == "self.step_counter == 0" and not st.orelse and game == "self":
+            for x in st.body:
+                one(x, True)
+        elif returns_reward and isinstance(st, ast.Assign) and len(st.targets) == 1 and isinstance(st.targets[0], ast.Name) \
+                and ast.unparse(st.value) in (
+                    "self.agent.reward_function.current_reward", "self.agent.reward_function.total_reward",
+                    "{name: agent.reward_function.current_reward for name, agent in self.agents.items()}",
+                    "{name: agent.reward_function.total_reward for name, agent in self.agents.items()}"):
+            if reward_var[0] is not None or guarded:
+                raise ValueError(f"{fn.name}: the returned reward is assigned twice / conditionally")
+            reward_var[0] = st.targets[0].id
+            out.append((guarded, f"(.readReward {'true' if 'total_reward' in ast.unparse(st.value) else 'false'})"))
+        elif isinstance(st, ast.Return):
+            if returns_reward:
+                if not (isinstance(st.value, ast.Tuple) and len(st.value.elts) == 5 and isinstance(st.value.elts[1], ast.Name)
+                        and st.value.elts[1].id == reward_var[0]):
+                    raise ValueError(f"{fn.name}: `{src}` does not return the reward variable `{reward_var[0]}` in second place")
+            elif st.value is not None:
+                raise ValueError(f"{fn.name}: `{src}`")
+        elif isinstance(st, ast.If) and all(w not in ast.unparse(st.test) for w in _PIPE_WORDS) \
+                and all(w not in ast.unparse(x) for x in st.body + st.orelse for w in _PIPE_WORDS if w not in ("self.simulation",)) \
+                and "_write_step_metadata_json" in src and len(st.body) == 1 and not st.orelse:
+            out.append((guarded, ".other"))      # `if self.game.save_step_metadata: self._write_step_metadata_json(...)`: a file is written
+        elif any(w in src for w in _PIPE_WORDS) and not (isinstance(st, ast.Assign) and src.startswith("step = ") and src.endswith(".step_counter")):
+            raise ValueError(f"{fn.name}: unrecognised reward-relevant statement `{src[:90]}`")
+        else:
+            out.append((guarded, ".other"))
+    for st in fn.body:
+        one(st, False)
+    if returns_reward and reward_var[0] is None:
+        raise ValueError(f"{fn.name}: no returned reward found")
+    return out
+
+
+def setup_sharing_program(fn: ast.FunctionDef) -> Tuple[List[str], List[str]]:
+    """`PrimaiteGame.setup_reward_sharing(self)` as the program it is (Model/Reward.lean `SetupProg`): it must be `graph = {}`, ONE loop
+    `for name, agent in self.agents.items():` = `graph[name] = set()` + ONE loop `for comp, weight in
+    agent.reward_function.reward_components:` = ONE `if isinstance(comp, SharedReward):` whose statements are among
+    `graph[name].add(comp.config.agent_name)` and `comp.callback = lambda agent_name: self.agents[agent_name].reward_function.current_reward`
+    (a bare annotation `comp: SharedReward` is dropped), followed by statements among `if graph_has_cycle(graph): raise RuntimeError(…)`
+    and `self._reward_calculation_order = topological_sort(graph)`. Returned in source order; their ORDER and MULTIPLICITY are what
+    Props/C10.lean proves equal to the model. Anything else raises."""
+    body = [st for st in fn.body if not (isinstance(st, ast.Expr) and isinstance(st.value, ast.Constant))]
+    if [a.arg for a in fn.args.args] != ["self"] or len(body) < 2 or ast.unparse(body[0]) != "graph = {}":
+        raise ValueError("setup_reward_sharing does not start with `graph = {}`")
+    loop = body[1]
+    if not isinstance(loop, ast.For) or ast.unparse(loop.target) != "(name, agent)" or ast.unparse(loop.iter) != "self.agents.items()" \
+            or loop.orelse or len(loop.body) != 2 or ast.unparse(loop.body[0]) != "graph[name] = set()":
+        raise ValueError("setup_reward_sharing: the loop over the agents is not `graph[name] = set()` + one loop over the components")
+    inner = loop.body[1]
+    if not isinstance(inner, ast.For) or ast.unparse(inner.target) != "(comp, weight)" or inner.orelse \
+            or ast.unparse(inner.iter) != "agent.reward_function.reward_components" or len(inner.body) != 1 \
+            or not isinstance(inner.body[0], ast.If) or ast.unparse(inner.body[0].test) != "isinstance(comp, SharedReward)" \
+            or inner.body[0].orelse:
+        raise ValueError("setup_reward_sharing: the loop over the components is not one `if isinstance(comp, SharedReward):`")
+    per = []
+    for st in inner.body[0].body:
+        src = ast.unparse(st)
+        if isinstance(st, ast.AnnAssign) and st.value is None:
+            continue
+        if src == "graph[name].add(comp.config.agent_name)":
+            per.append(".addArc")
+        elif src == "comp.callback = lambda agent_name: self.agents[agent_name].reward_function.current_reward":
+            per.append(".setCallback")
+        else:
+            raise ValueError(f"setup_reward_sharing: unrecognised statement for a shared component `{src[:90]}`")
+    tail = []
+    for st in body[2:]:
+        src = ast.unparse(st)
+        if isinstance(st, ast.If) and ast.unparse(st.test) == "graph_has_cycle(graph)" and not st.orelse and len(st.body) == 1 \
+                and isinstance(st.body[0], ast.Raise) and ast.unparse(st.body[0].exc).startswith("RuntimeError("):
+            tail.append(".raiseIfCycle")
+        elif src == "self._reward_calculation_order = topological_sort(graph)":
+            tail.append(".assignOrder")
+        else:
+            raise ValueError(f"setup_reward_sharing: unrecognised statement `{src[:90]}`")
+    return per, tail
+
+
 def shape_report() -> List[Tuple[str, bool, str]]:
     """(function, text-identical to the transcribed shape?, normalised source now) for the functions whose control flow the
     models transcribe by hand (deliberately blunt: any edit of these functions is reported)."""
     rw = parse("game/agent/rewards.py")
-    gm = parse("game/game.py")
-    sc = parse("game/science.py")
     fns: Dict[str, ast.FunctionDef] = {
-        "topological_sort": find_function(sc, "topological_sort"),
-        "graph_has_cycle": find_function(sc, "graph_has_cycle"),
         "rf_init": find_method(class_def(rw, "RewardFunction"), "__init__"),
         "register_component": find_method(class_def(rw, "RewardFunction"), "register_component"),
-        "setup_reward_sharing": find_method(class_def(gm, "PrimaiteGame"), "setup_reward_sharing"),
         "update_reward": find_method(class_def(parse("game/agent/interface.py"), "AbstractAgent"), "update_reward"),
         "save_reward_to_history": find_method(class_def(parse("game/agent/interface.py"), "AbstractAgent"), "save_reward_to_history"),
     }
@@ -153,6 +270,21 @@ def emit() -> str:
                      "self.step_counter > 0`?, operation on the agent looked up by `self.agents[agent_name]`) -/\n"
                      "def updateAgentsProgram : List (Bool × AOp) :=\n  ["
                      + ", ".join(f"({'true' if g else 'false'}, .{o})" for g, o in prog) + "]")
+    # `PrimaiteGame.setup_reward_sharing`: the statements of its loops and of its tail, in source order
+    per, tail = setup_sharing_program(find_method(class_def(parse("game/game.py"), "PrimaiteGame"), "setup_reward_sharing"))
+    calc_defs.append("/-- `PrimaiteGame.setup_reward_sharing` (game/game.py), statement by statement: what is done for every `SharedReward` "
+                     "component of every agent, and what follows the loops -/\ndef setupSharingProgram : SetupProg :=\n  "
+                     "{ perShared := [" + ", ".join(per) + "], tail := [" + ", ".join(tail) + "] }")
+    # the three step pipelines: order of tick / snapshot / update_agents / returned reward
+    pipes = [("PrimaiteGame.step", False, step_pipeline(find_method(class_def(parse("game/game.py"), "PrimaiteGame"), "step"), "self", False)),
+             ("PrimaiteGymEnv.step", True,
+              step_pipeline(find_method(class_def(parse("session/environment.py"), "PrimaiteGymEnv"), "step"), "self.game", True)),
+             ("PrimaiteRayMARLEnv.step", True,
+              step_pipeline(find_method(class_def(parse("session/ray_envs.py"), "PrimaiteRayMARLEnv"), "step"), "self.game", True))]
+    calc_defs.append("/-- the `step` methods as sequences of reward-relevant calls (name, returns the reward?, [(under `if self.step_counter == 0`?, "
+                     "call)]), in source order -/\ndef stepPipelines : List (String × Bool × List (Bool × POp)) :=\n  ["
+                     + ",\n   ".join(f"({lean_str(n)}, {'true' if r else 'false'}, [" + ", ".join(f"({'true' if g else 'false'}, {o})" for g, o in p) + "])"
+                                      for n, r, p in pipes) + "]")
     # sticky defaults
     sticky = []
     for cname, _disc, cls in classes:
@@ -221,10 +353,5 @@ Deliberately blunt; the semantic ties are the differential rigs (R-rew, exhausti
 def weightPassedUnchanged : Bool := {b(shape_ok["rf_init"] and shape_ok["register_component"])}
 /-- `update_reward` passes `self.history[-1]`; `save_reward_to_history` writes `current_reward` into `self.history[-1].reward` -/
 def agentRewardPlumbing : Bool := {b(shape_ok["update_reward"] and shape_ok["save_reward_to_history"])}
-/-- `setup_reward_sharing`: one `set` per agent, every `SharedReward` component adds its `agent_name` and gets the callback reading
-`current_reward`; `graph_has_cycle` → `RuntimeError`; order = `topological_sort(graph)` -/
-def setupRewardSharingShape : Bool := {b(shape_ok["setup_reward_sharing"])}
-def topoSortIsPostOrder : Bool := {b(shape_ok["topological_sort"])}
-def cycleSearchShape : Bool := {b(shape_ok["graph_has_cycle"])}
 end Primaite.Gen.Reward
 """
